@@ -74,7 +74,7 @@ def verus_cmd(extra=()):
             "--extern", "log=" + rlib("log"),
             "--extern", "convert_string=" + rlib("convert_string"),
             "--triggers-mode", "silent", "--output-json", "--time", "--error-format=json",
-            "--multiple-errors", "20", "--num-threads", str(min(16, os.cpu_count() or 4))] + list(extra)
+            "--multiple-errors", "20"] + (list(extra) if "--num-threads" in extra else ["--num-threads", str(min(16, os.cpu_count() or 4))] + list(extra))
 
 
 class VerusResult:
